@@ -190,7 +190,7 @@ class Check:
     # ------------------------------------------------------------------ TLC
     def _java(self, big: bool):
         if big:
-            return ["java", "-Xss64m", "-Xmx16g", "-XX:+UseParallelGC"]
+            return ["java", "-Xss64m", "-Xmx12g", "-XX:+UseParallelGC", "-XX:ParallelGCThreads=4"]
         return ["java", "-Xss64m", "-Xmx3g", "-XX:+UseSerialGC", "-XX:TieredStopAtLevel=1"]
 
     def sany(self, *modules):
@@ -245,13 +245,23 @@ class Check:
         return r
 
     def validate(self, module: str, cfg: str, events: list, label: str = "trace", timeout: int = 3600,
-                 chunk: int = 0):
+                 chunk: int = 0, weight=None, budget: int = 60000):
         """Validate recorded events against a trace specification.
 
         Returns list of (tid, line_index, clause) for rejected lines.  Every line
         must be consumed (DONE n printed) or the run is a machinery failure."""
         bad = []
         chunks = [events] if not chunk else [events[i:i + chunk] for i in range(0, len(events), chunk)]
+        if weight is not None:  # split by cumulative weight (e.g. number of logged points)
+            chunks, cur, acc = [], [], 0
+            for ev in events:
+                cur.append(ev)
+                acc += weight(ev)
+                if acc >= budget:
+                    chunks.append(cur)
+                    cur, acc = [], 0
+            if cur:
+                chunks.append(cur)
         for ci, evs in enumerate(chunks):
             if not evs:
                 continue
@@ -310,7 +320,8 @@ class Check:
             print(f"  signature={sig} what={vs[0]['what']} occurrences={len(vs)}")
             rc = 1
         self.write_evidence(len(new), [k for k, _ in seen_known.values()])
-        shutil.rmtree(self.work, ignore_errors=True)
+        if not os.environ.get("VERIF_KEEP"):
+            shutil.rmtree(self.work, ignore_errors=True)
         if rc == 0:
             print(f"OK property={self.pid} tier={self.tier} seed={self.seed} wall={time.time()-self.t0:.1f}s "
                   f"states={self.cov['states']} traces={self.cov['traces_validated_against_impl']}")
